@@ -52,6 +52,7 @@ static YR_COMPILER* comps[NCOMP];
 static YR_RULES* rules_[NRULES];
 static YR_SCANNER* scans[NSCAN];
 static int scan_rules_slot[NSCAN];
+static int comp_errors[NCOMP];
 static BYTES bufs[NBUF];
 static BYTES imgs[NIMG];
 static struct
@@ -816,10 +817,17 @@ static void do_scan(char** tk, int ntk)
   int ti = slot(target + 1, is_scanner ? NSCAN : NRULES);
   YR_SCANNER* sc = is_scanner ? scans[ti] : NULL;
   YR_RULES* ru = is_scanner ? NULL : rules_[ti];
-  if (is_scanner && !sc)
-    die("scan: no scanner %d", ti);
-  if (!is_scanner && !ru)
-    die("scan: no rules %d", ti);
+  if ((is_scanner && !sc) || (!is_scanner && !ru))
+  {
+    fclose(c.msgs);
+    fclose(c.matches);
+    fclose(c.invf);
+    free(mj);
+    free(xj);
+    free(ij);
+    fprintf(out, "{\"op\":\"scan\",\"rc\":-2,\"skipped\":1,\"msgs\":[],\"matches\":{},\"inv\":[]}\n");
+    return;
+  }
 
   int rc = -1;
   int calls = 0;
@@ -1046,6 +1054,7 @@ static int exec_line(char* line)
       comps[c] = NULL;
     }
     API(rc = yr_compiler_create(&comps[c]));
+    comp_errors[c] = 0;
     if (rc == ERROR_SUCCESS)
     {
       yr_compiler_set_callback(comps[c], compiler_cb, NULL);
@@ -1068,11 +1077,18 @@ static int exec_line(char* line)
     free(tables[c].p);
     tables[c] = unhex(tk[2]);
     int thr = ntk > 3 ? atoi(tk[3]) : 0;
-    yr_compiler_set_atom_quality_table(comps[c], tables[c].p, (int) (tables[c].n / 5), (unsigned char) thr);
+    if (comps[c])
+      yr_compiler_set_atom_quality_table(comps[c], tables[c].p, (int) (tables[c].n / 5), (unsigned char) thr);
   }
   else if (strcmp(op, "cdef") == 0)
   {
     int c = slot(tk[1], NCOMP);
+    if (!comps[c])
+    {
+      fprintf(out, "{\"op\":\"cdef\",\"rc\":-2,\"skipped\":1}\n");
+      fflush(out);
+      return 0;
+    }
     BYTES nm = unhex(tk[3]);
     rc = define_var(0, comps[c], tk[2], (const char*) nm.p, tk[4]);
     free(nm.p);
@@ -1091,7 +1107,11 @@ static int exec_line(char* line)
   {
     int c = slot(tk[1], NCOMP);
     if (!comps[c])
-      die("cadd: no compiler");
+    {
+      fprintf(out, "{\"op\":\"cadd\",\"errors\":-2,\"skipped\":1,\"nerr\":0,\"nwarn\":0,\"msgs\":[]}\n");
+      fflush(out);
+      return 0;
+    }
     BYTES ns = unhex(tk[2]);
     BYTES src = unhex(tk[3]);
     msgs_reset(&cmsgs);
@@ -1126,6 +1146,8 @@ static int exec_line(char* line)
       }
       unlink(path);
     }
+    if (errors != 0)
+      comp_errors[c] = 1;
     fprintf(out, "{\"op\":\"cadd\",\"errors\":%d,\"nerr\":%d,\"nwarn\":%d,\"msgs\":[%s]}\n", errors, cmsgs.nerr, cmsgs.nwarn, cmsgs.json ? cmsgs.json : "");
     free(ns.p);
     free(src.p);
@@ -1137,6 +1159,13 @@ static int exec_line(char* line)
     {
       API(yr_rules_destroy(rules_[r]));
       rules_[r] = NULL;
+    }
+    if (comp_errors[c] || !comps[c])
+    {
+      // yr_compiler_get_rules must not be called after a failed compilation
+      fprintf(out, "{\"op\":\"crules\",\"rc\":-2,\"skipped\":1}\n");
+      fflush(out);
+      return 0;
     }
     API(rc = yr_compiler_get_rules(comps[c], &rules_[r]));
     if (rc != ERROR_SUCCESS)
@@ -1160,7 +1189,11 @@ static int exec_line(char* line)
   {
     int r = slot(tk[1], NRULES);
     if (!rules_[r])
-      die("rinfo: no rules");
+    {
+      fprintf(out, "{\"op\":\"rinfo\",\"rc\":-2,\"skipped\":1}\n");
+      fflush(out);
+      return 0;
+    }
     fprintf(out, "{\"op\":\"rinfo\",");
     dump_rules(rules_[r], out, ntk > 2 ? atoi(tk[2]) : 0);
     fprintf(out, "}\n");
@@ -1170,7 +1203,11 @@ static int exec_line(char* line)
     // rsave <r> <img> <file|stream> <chunk>
     int r = slot(tk[1], NRULES), im = slot(tk[2], NIMG);
     if (!rules_[r])
-      die("rsave: no rules");
+    {
+      fprintf(out, "{\"op\":\"rsave\",\"rc\":-2,\"skipped\":1}\n");
+      fflush(out);
+      return 0;
+    }
     free(imgs[im].p);
     imgs[im].p = NULL;
     imgs[im].n = 0;
@@ -1285,7 +1322,11 @@ static int exec_line(char* line)
   {
     int r = slot(tk[1], NRULES);
     if (!rules_[r])
-      die("rdef: no rules");
+    {
+      fprintf(out, "{\"op\":\"rdef\",\"rc\":-2,\"skipped\":1}\n");
+      fflush(out);
+      return 0;
+    }
     BYTES nm = unhex(tk[3]);
     rc = define_var(1, rules_[r], tk[2], (const char*) nm.p, tk[4]);
     free(nm.p);
@@ -1305,7 +1346,11 @@ static int exec_line(char* line)
   {
     int r = slot(tk[1], NRULES), s = slot(tk[2], NSCAN);
     if (!rules_[r])
-      die("snew: no rules");
+    {
+      fprintf(out, "{\"op\":\"snew\",\"rc\":-2,\"skipped\":1}\n");
+      fflush(out);
+      return 0;
+    }
     if (scans[s])
     {
       API(yr_scanner_destroy(scans[s]));
@@ -1321,7 +1366,11 @@ static int exec_line(char* line)
   {
     int s = slot(tk[1], NSCAN);
     if (!scans[s])
-      die("sdef: no scanner");
+    {
+      fprintf(out, "{\"op\":\"sdef\",\"rc\":-2,\"skipped\":1}\n");
+      fflush(out);
+      return 0;
+    }
     BYTES nm = unhex(tk[3]);
     rc = define_var(2, scans[s], tk[2], (const char*) nm.p, tk[4]);
     free(nm.p);
